@@ -710,16 +710,16 @@ theorem envVarint_sane : envVarint.Sane := by
 
 /-! ### `skip` has no destination: it is never `stuck` -/
 
-theorem skipN_ne_stuck (l : Int) (bs : Bytes) : skipN l bs ≠ .stuck := by
+theorem skipN_ne_stuck_t (l : Int) (bs : Bytes) : skipN l bs ≠ .stuck := by
   unfold skipN next
   split <;> rename_i h <;> split at h <;> (try split at h) <;> simp_all
 
-theorem skipVar_ne_stuck (bs : Bytes) : skipVar bs ≠ .stuck := by
+theorem skipVar_ne_stuck_t (bs : Bytes) : skipVar bs ≠ .stuck := by
   unfold skipVar; split <;> simp
 
-theorem skipLen_ne_stuck (bs : Bytes) : skipLen bs ≠ .stuck := by
+theorem skipLen_ne_stuck_t (bs : Bytes) : skipLen bs ≠ .stuck := by
   unfold skipLen; split
-  · exact skipN_ne_stuck _ _
+  · exact skipN_ne_stuck_t _ _
   · simp
 
 theorem rdVarint_ne_stuck (bs : Bytes) : rdVarint bs ≠ .stuck := by
@@ -728,14 +728,14 @@ theorem rdVarint_ne_stuck (bs : Bytes) : rdVarint bs ≠ .stuck := by
 theorem rdByte_ne_stuck (bs : Bytes) : rdByte bs ≠ .stuck := by
   cases bs <;> simp [rdByte]
 
-theorem Outcome.bind_ne_stuck {α β : Type} {o : Outcome α} {f : α → Outcome β}
+theorem Outcome.bind_ne_stuck_t {α β : Type} {o : Outcome α} {f : α → Outcome β}
     (h1 : o ≠ .stuck) (h2 : ∀ a, f a ≠ .stuck) : Outcome.bind o f ≠ .stuck := by
   cases o with
   | ok a => exact h2 a
   | stuck => exact absurd rfl h1
   | _ => simp [Outcome.bind]
 
-structure SkipNoStuckAt (n : Nat) : Prop where
+structure SkipNeverStuckAt (n : Nat) : Prop where
   skip : ∀ c bs, skip env n c bs ≠ .stuck
   skipFields : ∀ cs bs, skipFields env n cs bs ≠ .stuck
   skipBlocks : ∀ keyed item bs, skipBlocks env n keyed item bs ≠ .stuck
@@ -744,20 +744,20 @@ structure SkipNoStuckAt (n : Nat) : Prop where
 syntax "ns_tac" : tactic
 macro_rules
   | `(tactic| ns_tac) => `(tactic| repeat' (first
-      | exact skipN_ne_stuck _ _
-      | exact skipVar_ne_stuck _
-      | exact skipLen_ne_stuck _
+      | exact skipN_ne_stuck_t _ _
+      | exact skipVar_ne_stuck_t _
+      | exact skipLen_ne_stuck_t _
       | exact rdVarint_ne_stuck _
       | exact rdByte_ne_stuck _
-      | exact SkipNoStuckAt.skip (by assumption) _ _
-      | exact SkipNoStuckAt.skipFields (by assumption) _ _
-      | exact SkipNoStuckAt.skipBlocks (by assumption) _ _ _
-      | exact SkipNoStuckAt.skipItems (by assumption) _ _ _ _
-      | (refine Outcome.bind_ne_stuck ?_ (fun _ => ?_))
+      | exact SkipNeverStuckAt.skip (by assumption) _ _
+      | exact SkipNeverStuckAt.skipFields (by assumption) _ _
+      | exact SkipNeverStuckAt.skipBlocks (by assumption) _ _ _
+      | exact SkipNeverStuckAt.skipItems (by assumption) _ _ _ _
+      | (refine Outcome.bind_ne_stuck_t ?_ (fun _ => ?_))
       | (intro h; cases h)
       | split))
 
-theorem skipNoStuckAt : ∀ n, SkipNoStuckAt env n := by
+theorem skipNeverStuckAt : ∀ n, SkipNeverStuckAt env n := by
   intro n
   induction n with
   | zero => constructor <;> intros <;> simp [skip, skipFields, skipBlocks, skipItems]
